@@ -12,7 +12,9 @@
 import gc
 import random
 
-from harness import tlc, scen
+import os
+
+from harness import tlc, scen, realnet, tlsfix
 from harness.common import main, MachineryError
 from checks import c05
 
@@ -79,6 +81,130 @@ def run_history(role, script, how, reps=3):
     return first_log, census, counts[-1] - counts[0], sim.alive, repr(sim.loop_error)[:120] if sim.loop_error else ''
 
 
+def proc_tree(pid):
+    out, todo = [], [pid]
+    while todo:
+        p = todo.pop()
+        out.append(p)
+        try:
+            for t in os.listdir('/proc/%d/task' % p):
+                kids = open('/proc/%d/task/%s/children' % (p, t)).read().split()
+                todo += [int(k) for k in kids]
+        except OSError:
+            pass
+    return out
+
+
+def fd_census(pids):
+    n = {}
+    for p in pids:
+        try:
+            n[p] = len(os.listdir('/proc/%d/fd' % p))
+        except OSError:
+            n[p] = -1
+    return n
+
+
+def realnet_histories(port, oport, tls, cafile):
+    """One round of connection histories against a REAL proxy process (kernel sockets)."""
+    import socket
+    import ssl
+    import struct
+
+    def conn():
+        return socket.create_connection(('127.0.0.1', port), timeout=5)
+
+    def wrap(s):
+        if not tls:
+            return s
+        ctx = ssl.create_default_context(cafile=cafile)
+        return ctx.wrap_socket(s, server_hostname='localhost')
+    # 1. a complete request (web server 404)
+    try:
+        s = wrap(conn())
+        s.sendall(b'GET /nothing HTTP/1.1\r\nHost: x\r\n\r\n')
+        realnet.read_quiet(s, quiet=0.3, first=3.0)
+        s.close()
+    except OSError:
+        pass
+    # 2. connect and close at once
+    conn().close()
+    # 3. plain garbage (a failed TLS handshake when the proxy terminates TLS), then close
+    try:
+        s = conn()
+        s.sendall(b'\x00\x01garbage that is neither TLS nor HTTP\r\n\r\n')
+        realnet.read_quiet(s, quiet=0.3, first=1.0)
+        s.close()
+    except OSError:
+        pass
+    # 4. partial request, then reset
+    try:
+        s = conn()
+        s.sendall(b'POST http://127.0.0.1:%d/x HTTP/1.1\r\nContent-Length: 100\r\n\r\npartial' % oport)
+        s.setsockopt(socket.SOL_SOCKET, socket.SO_LINGER, struct.pack('ii', 1, 0))
+        s.close()
+    except OSError:
+        pass
+    # 5. forward proxy request to an origin, client closes after the response
+    try:
+        s = wrap(conn())
+        s.sendall(b'GET http://127.0.0.1:%d/r HTTP/1.1\r\nHost: o\r\n\r\n' % oport)
+        realnet.read_quiet(s, quiet=0.3, first=3.0)
+        s.close()
+    except OSError:
+        pass
+    # 6. CONNECT tunnel, some bytes, client closes
+    try:
+        s = wrap(conn())
+        s.sendall(b'CONNECT 127.0.0.1:%d HTTP/1.1\r\nHost: o\r\n\r\n' % oport)
+        realnet.read_quiet(s, quiet=0.3, first=3.0)
+        s.sendall(b'GET /t HTTP/1.1\r\nHost: o\r\n\r\n')
+        realnet.read_quiet(s, quiet=0.3, first=3.0)
+        s.close()
+    except OSError:
+        pass
+
+
+def realnet_census(chk, quick):
+    """Descriptor census of REAL proxy processes (local and remote executors, with and without TLS termination): the set of open
+    descriptors of every process of the proxy must not grow when the histories are repeated."""
+    import time
+    d = tlsfix.ensure()
+    origin = realnet.Origin(b'O')
+    cases, descs = [], {}
+    try:
+        for mode in ('local', 'remote'):
+            for tls in (False, True):
+                extra = ['--enable-web-server', '--timeout', '1']
+                if tls:
+                    extra += ['--key-file', os.path.join(d, 'trusted-key.pem'), '--cert-file', os.path.join(d, 'trusted-cert.pem')]
+                px = realnet.ProxyProc(mode, extra=extra, acceptors=1, workers=1)
+                try:
+                    ca = os.path.join(d, 'octa-cert.pem')
+                    realnet_histories(px.port, origin.port, tls, ca)            # warm-up round (lazy imports, first-use descriptors)
+                    realnet_histories(px.port, origin.port, tls, ca)
+                    time.sleep(3.0)
+                    pids = proc_tree(px.p.pid)
+                    before = fd_census(pids)
+                    rounds = 4 if quick else 12
+                    for _ in range(rounds):
+                        realnet_histories(px.port, origin.port, tls, ca)
+                    time.sleep(3.5)                                             # idle timeout 1 s + reaper period
+                    after = fd_census(pids)
+                finally:
+                    px.stop()
+                growth = sum(max(0, after[p] - before[p]) for p in pids if before[p] >= 0 and after[p] >= 0)
+                cid = len(cases) + 1
+                cases.append({'id': 100000 + cid, 'ev': [{'e': 'end', 'fd': 0, 'gc': False, 'res': 'ok', 'name': ''}],
+                              'census': {'open': [], 'sel': [], 'works': 0, 'regs': 0, 'unfinished': 0}, 'growth': growth})
+                descs[100000 + cid] = {'history': 'RealNet census: %s executor%s, %d rounds of 6 connection histories' % (mode, ', TLS termination' if tls else '', rounds),
+                                       'role': 'realnet-' + mode + ('-tls' if tls else ''), 'loop_alive': True, 'loop_error': '',
+                                       'descriptors_before': {str(k): v for k, v in before.items()}, 'descriptors_after': {str(k): v for k, v in after.items()}}
+    finally:
+        origin.stop()
+    return cases, descs
+
+
 def to_events(log):
     out = []
     for e in log:
@@ -117,6 +243,9 @@ def run(chk):
         cid = len(cases) + 1
         cases.append({'id': cid, 'ev': to_events(log), 'census': census, 'growth': growth})
         descs[cid] = {'history': desc, 'role': role, 'loop_alive': alive, 'loop_error': err}
+    rcases, rdescs = realnet_census(chk, quick)
+    cases += rcases
+    descs.update(rdescs)
     results, rej = tlc.run_sharded('TraceRes', 'TraceRes.cfg', cases, shards=16, timeout=1200)
     m = tlc.Merged(results)
     chk.add_tlc('TraceRes (%d connection histories x 3 repetitions)' % len(cases), m)
@@ -140,7 +269,8 @@ def run(chk):
                'epoll-like modify/unregister errors)',
                'a socket that was created but never connected (failed connect) may be reclaimed by the finaliser; a CONNECTED socket must be '
                'closed by the proxy itself',
-               'remote executors (descriptor passing, os.close(work_id)) are not exercised on SimNet')
+               'remote executors (descriptor passing, os.close(work_id)) and TLS termination are exercised on RealNet by a descriptor census of '
+               'every process of a real proxy (/proc/<pid>/fd) before and after repeated histories')
 
 
 if __name__ == '__main__':
